@@ -110,6 +110,35 @@ def failing (t : Table) (w : Nat) (o : Out) : List String :=
   (if FaceEdgesOK t w o.edges o.faceEdges then [] else ["faceEdge_points_at"]) ++
   (if NPerFaceOK t o.nPerFace then [] else ["nNodesPerFace"])
 
+/-! ### a source-supplied `edge_node_connectivity` (`_populate_face_edge_connectivity` when the
+    stored table has no `inverse_indices` side table, `_inverse_indices_from_edge_nodes`)
+
+    The supplied table `G` is KEPT (edge coordinates, edge data and the other edge tables follow its
+    numbering) and every face slot is looked up in it; the rows of `G` may list the larger node
+    first (`np.sort(edge_nodes, axis=1)`).  When some edge of a face is not listed the table is
+    re-derived (`build`). -/
+
+/-- position of the first row of `G` joining the two nodes of the sorted pair `p`
+    (`order[searchsorted(given_key[order], key)]` with a stable `argsort`) -/
+def lookupIn (G : List (Int × Int)) (p : Int × Int) : Nat := (G.map sortPair).idxOf p
+
+/-- `inverse_indices is not None`: both tables non-empty and every derived edge is listed -/
+def coversGiven (G : List (Int × Int)) (t : Table) : Bool :=
+  !(edges t).isEmpty && !G.isEmpty && (edges t).all (fun p => (G.map sortPair).contains p)
+
+/-- `face_edge_connectivity` indexing INTO the supplied table -/
+def faceEdgesInto (G : List (Int × Int)) (t : Table) : Table :=
+  t.map (fun r => (rowPairs r).map (fun p => if hasFill p then FILL else Int.ofNat (lookupIn G p)))
+
+def buildGiven (G : List (Int × Int)) (t : Table) : Out :=
+  if coversGiven G t then { edges := G, faceEdges := faceEdgesInto G t, nPerFace := nNodesPerFace t }
+  else build t
+
+/-- clauses failing for a grid whose source supplied `G`: the C02 clauses on the grid's own tables,
+    plus "the supplied table is the grid's table" whenever it lists every edge of the faces -/
+def failingGiven (t : Table) (w : Nat) (G : List (Int × Int)) (o : Out) : List String :=
+  failing t w o ++ (if coversGiven G t && !(o.edges == G) then ["supplied_table_kept"] else [])
+
 /-- standard form: rectangular of width `w`, every row is nonnegative indices `< n` followed
     only by `FILL`, at least one real corner. -/
 def StdRow (n w : Nat) (r : List Int) : Prop :=
